@@ -390,4 +390,104 @@ def runUse (st : MState) : List UseOp → List UseObs × MState
       let rs := runUse { st with info := r.2.1 } ops
       (.fetched r.1 r.2.1.isSome r.2.2 :: rs.1, rs.2)
 
+/-! ## `torrent()` in full: a function of the magnet's own fields and the adopted metadata
+    The info section is a dict in insertion order whose values are of an arbitrary type `V` (the
+    model never looks into them); `ofStr` / `ofInt` inject what `torrent()` itself writes
+    (`name` from `dn`, `length` from `xl`). -/
+
+abbrev Info (V : Type) := List (Str × V)
+
+/-- `d[k] = v` -/
+def dictSet {V : Type} (k : Str) (v : V) : Info V → Info V
+  | [] => [(k, v)]
+  | (k', v') :: rest => if k' = k then (k, v) :: rest else (k', v') :: dictSet k v rest
+
+/-- `d.pop(k, None)` -/
+def dictPop {V : Type} (k : Str) (d : Info V) : Info V := d.filter fun p => p.1 ≠ k
+
+def kName : Str := ['n', 'a', 'm', 'e']
+def kLength : Str := ['l', 'e', 'n', 'g', 't', 'h']
+
+/-- the fields of the magnet that `torrent()` reads besides the hash -/
+structure Fields where
+  dn : Option Str := none
+  xl : Option Int := none        -- `_xl` as the xl setter stored it
+  tr : List Str := []
+  ws : List Str := []
+  deriving Repr
+
+/-- what is observed of the returned `Torrent`: `metainfo['info']`, the `_infohash` attribute
+    (only set when there is no metadata), the flat tracker list, the webseeds -/
+structure TorrentOut (V : Type) where
+  info : Info V
+  ownHash : Option Str
+  trackers : List Str
+  webseeds : List Str
+
+/-- `Magnet.torrent()`; `adopted` = `_info` if the attribute exists -/
+def torrentOf {V : Type} (ofStr : Str → V) (ofInt : Int → V) (ih : Str) (f : Fields)
+    (adopted : Option (Info V)) : Except MErr (TorrentOut V) :=
+  let info : Info V := []                                               -- Torrent()
+  let info := match f.dn with                                           -- torrent.name = self.dn
+    | none => dictPop kName info
+    | some d => dictSet kName (ofStr d) info
+  let trackers := if f.tr.isEmpty then [] else f.tr                     -- if self.tr: torrent.trackers = self.tr
+  let webseeds := if f.ws.isEmpty then [] else f.ws                     -- if self.ws: torrent.webseeds = self.ws
+  let info := match f.xl with                                           -- if self.xl: …['length'] = self.xl
+    | some n => if n ≠ 0 then dictSet kLength (ofInt n) info else info
+    | none => info
+  match adopted with
+  | some a =>                                          -- torrent.metainfo['info'] = copy.deepcopy(self._info)
+    .ok { info := a, ownHash := none, trackers := trackers, webseeds := webseeds }
+  | none =>                                                             -- torrent._infohash = self._infohash_as_base16()
+    match infohashAsBase16 ih with
+    | .error e => .error e
+    | .ok h => .ok { info := info, ownHash := some h, trackers := trackers, webseeds := webseeds }
+
+/-- `Torrent.infohash`: `hashOf info` = `validate()` + SHA-1 of the bencoded info section
+    (`none` = MetainfoError; an oracle here, C05/C07 are about it); if that fails the explicitly
+    given `_infohash` is the answer, if there is none the MetainfoError is raised -/
+def torrentInfohash {V : Type} (hashOf : Info V → Option Str) (t : TorrentOut V) : Except MErr Str :=
+  match hashOf t.info with
+  | some h => .ok h
+  | none =>
+    match t.ownHash with
+    | some h => .ok h
+    | none => .error .metainfo
+
+/-! ## histories of `torrent()` calls whose results the caller keeps and edits
+    Since `eafeb16` the returned torrent gets a **deep copy** of `_info`; the other parts of a result
+    (`Torrent()`, its info dict, `Trackers(self.tr)`, `URLs(self.ws)`) always were fresh objects.  So a
+    result shares no mutable state with the magnet or with another result: an edit by the caller —
+    any function of the result, at any depth — changes that one result and nothing else.  The state
+    keeps every result handed out so far as the caller sees it now. -/
+
+inductive TOp (V : Type) where
+  | torrent                                                  -- `r = m.torrent()`, kept by the caller
+  | edit (i : Nat) (g : TorrentOut V → TorrentOut V)         -- the caller changes result `i` in place
+  | setFields (f : Fields)                                   -- `m.dn = …`, `m.xl = …`, `m.tr = …`, `m.ws = …`
+
+structure TState (V : Type) where
+  fields : Fields
+  adopted : Option (Info V)
+  results : List (TorrentOut V)
+
+def stepT {V : Type} (ofStr : Str → V) (ofInt : Int → V) (ih : Str) (st : TState V) :
+    TOp V → Option (Except MErr (TorrentOut V)) × TState V
+  | .torrent =>
+    match torrentOf ofStr ofInt ih st.fields st.adopted with
+    | .ok t => (some (.ok t), { st with results := st.results ++ [t] })
+    | .error e => (some (.error e), st)
+  | .edit i g => (none, { st with results := st.results.modify i g })
+  | .setFields f => (none, { st with fields := f })
+
+/-- run a history; collects what every `torrent()` returned at the moment it returned -/
+def runT {V : Type} (ofStr : Str → V) (ofInt : Int → V) (ih : Str) (st : TState V) :
+    List (TOp V) → List (Except MErr (TorrentOut V)) × TState V
+  | [] => ([], st)
+  | op :: ops =>
+    let r := stepT ofStr ofInt ih st op
+    let rs := runT ofStr ofInt ih r.2 ops
+    ((match r.1 with | some o => o :: rs.1 | none => rs.1), rs.2)
+
 end Torf.Magnet
